@@ -109,9 +109,10 @@ class C09(Prop):
             if not tok:
                 ctx.fail("no-token", "%s: a non-final answer carries no token" % label, case)
             from traph.helpers import parse_pagination_token, build_pagination_token
-            i, path = parse_pagination_token(tok)
-            if build_pagination_token(i, path) != tok:
-                ctx.fail("token-round-trip", "%s: token %r parses to (%r, %r) which builds %r" % (label, tok, i, path, build_pagination_token(i, path)), case)
+            i, path = case.call("parse_pagination_token(%r)" % (tok,), parse_pagination_token, tok)
+            back = case.call("build_pagination_token", build_pagination_token, i, path)
+            if back != tok:
+                ctx.fail("token-round-trip", "%s: token %r parses to (%r, %r) which builds %r" % (label, tok, i, path, back), case)
         elif r.get("token"):
             ctx.fail("final-with-token", "%s: the final answer carries a token" % label, case)
 
